@@ -44,12 +44,28 @@ def parent(chk, F):
     inner_candidates = [l for l in loops(outer_loop["body"])]
     inner = None
     for l in inner_candidates:
-        if H.method_calls(l["body"], "recv") and any(H.local_name(m["recv"]) and H.local_name(m["recv"])[0] == "recv_request" for m in H.method_calls(l["body"], "recv")):
+        if H.method_calls(l["body"], "recv") and H.method_calls(l["body"], "send") and H.method_calls(l["body"], "write_async"):
             inner = l
             break
     if inner is None:
-        raise AnchorLost("no loop in run_task receives from recv_request")
+        raise AnchorLost("no loop in run_task receives a request, writes it and sends a reply")
     FK = "rink_sandbox::parent::Sandbox::run_task"
+    # the roles are found by what the variables do, not by what they are called
+    def recv_of(name):
+        ms = [m for m in H.method_calls(inner["body"], name) if H.local_name(m["recv"])]
+        return H.local_name(ms[0]["recv"])[0] if ms else None
+    RECVQ = recv_of("recv")            # request channel
+    SENDQ = recv_of("send")            # reply channel
+    FRAME = recv_of("write_async")     # framing state
+    killers = [m for m in H.method_calls(inner["body"], "kill") if H.local_name(m["recv"])]
+    PROC = H.local_name(killers[0]["recv"])[0] if killers else None
+    FLAG = None
+    for kind, node in H.stmts_of(inner["body"]):
+        e = node.get("init") if kind == "let" else node
+        if e and e.get("k") == "If" and H.local_name(e["cond"]) and H.method_calls(e["then"], "kill"):
+            FLAG = H.local_name(e["cond"])[0]
+    if not (RECVQ and SENDQ and FRAME and PROC and FLAG):
+        raise AnchorLost("run_task: could not identify the request channel, reply channel, frame, child process and respawn flag (%s)" % [RECVQ, SENDQ, FRAME, PROC, FLAG])
 
     # ---- (a) statement order of the request loop --------------------------------------------------
     seq = []
@@ -60,15 +76,15 @@ def parent(chk, F):
         def has_mc(name, recvname):
             return any(m["name"] == name and (H.local_name(m["recv"]) or ("",))[0] == recvname for m in H.method_calls(e))
         line = node.get("line", e.get("line"))
-        if has_mc("recv", "recv_request"):
+        if has_mc("recv", RECVQ):
             seq.append(("RECV", line, e))
-        elif has_mc("send", "send_response"):
+        elif has_mc("send", SENDQ):
             seq.append(("SEND", line, e))
         elif e.get("k") == "Match" and e.get("src") == "Normal" and any(n.get("k") == "Await" for n in hir_walk(e["scrut"])):
             seq.append(("MATCH", line, e))
-        elif has_mc("write_async", "frame") and e.get("k") != "Closure":
+        elif has_mc("write_async", FRAME) and e.get("k") != "Closure":
             seq.append(("WRITE", line, e))
-        elif e.get("k") == "If" and H.local_name(e["cond"]) and H.local_name(e["cond"])[0] == "break_out":
+        elif e.get("k") == "If" and H.local_name(e["cond"]) and H.local_name(e["cond"])[0] == FLAG:
             seq.append(("IFBREAK", line, e))
         else:
             seq.append(("other", line, e))
@@ -111,7 +127,7 @@ def parent(chk, F):
                            "%s result is propagated with `?` (the task ends and the caller's recv fails = an error reply)" % tag,
                            "the result of %s is not propagated" % tag)
     # exactly one send in the whole function
-    sends = [m for m in H.method_calls(body, "send") if (H.local_name(m["recv"]) or ("",))[0] == "send_response"]
+    sends = [m for m in H.method_calls(body, "send") if (H.local_name(m["recv"]) or ("",))[0] == SENDQ]
     chk.decide(len(sends) == 1, "request-loop", FK, "single-send", "%s:%d" % (file, sends[0]["line"] if sends else 0),
                "send_response.send occurs exactly once", "send_response.send occurs %d times" % len(sends))
     # no break/continue targeting the request loop before SEND
@@ -177,7 +193,7 @@ def parent(chk, F):
     n_err = 0
     for a in mnode["arms"]:
         ptxt = H.pat_str(a["pat"]) + (" if " + H.expr_str(a["guard"], 60) if a.get("guard") else "")
-        sets = [x for x in H.assigns_to(a["body"], "break_out")]
+        sets = [x for x in H.assigns_to(a["body"], FLAG)]
         sets_true = any(x["rhs"].get("k") == "Lit" and x["rhs"]["lit"].get("v") is True for x in sets)
         # value of the arm
         tail = a["body"]
@@ -204,7 +220,7 @@ def parent(chk, F):
     if n_err < 4:
         chk.anchor_lost("recovery-arms", FK, "expected at least 4 error arms in `match pending.await`, found %d" % n_err)
     # break_out declared false before the match, inside the loop
-    decl = [s for k, s in H.stmts_of(inner["body"]) if k == "let" and s["pat"].get("name") == "break_out"]
+    decl = [s for k, s in H.stmts_of(inner["body"]) if k == "let" and s["pat"].get("name") == FLAG]
     okdecl = len(decl) == 1 and decl[0]["init"]["k"] == "Lit" and decl[0]["init"]["lit"]["v"] is False
     chk.decide(okdecl, "recovery-arms", FK, "break_out-init", "%s:%d" % (file, decl[0]["line"] if decl else 0),
                "break_out is initialised to false per request", "break_out is not a per-request flag initialised to false")
@@ -213,7 +229,7 @@ def parent(chk, F):
     if ib is None:
         raise AnchorLost("no `if break_out` after the send")
     then = ib[2]["then"]
-    kills = [x for x in H.method_calls(then, "kill") if (H.local_name(x["recv"]) or ("",))[0] == "process"]
+    kills = [x for x in H.method_calls(then, "kill") if (H.local_name(x["recv"]) or ("",))[0] == PROC]
     brk = [n for n in hir_walk(then) if n.get("k") == "Break" and n.get("target") == lid]
     brk_toplevel = any(k in ("expr", "tail") and n.get("k") == "Break" and n.get("target") == lid for k, n in H.stmts_of(then))
     chk.decide(len(kills) == 1 and brk_toplevel, "recovery-arms", FK, "kill-and-respawn", "%s:%d" % (file, ib[1]),
@@ -221,14 +237,16 @@ def parent(chk, F):
                "`if break_out` does not kill the child and unconditionally break to the outer loop (kill sites %d, break %s)" % (len(kills), bool(brk)))
     # outer loop: spawn + fresh handles
     ostm = H.stmts_of(outer_loop["body"])
-    proc = [s for k, s in ostm if k == "let" and s["pat"].get("name") == "process"]
+    proc = [s for k, s in ostm if k == "let" and s["pat"].get("name") == PROC]
     spawn_ok = len(proc) == 1 and bool(H.method_calls(proc[0]["init"], "spawn"))
     chk.decide(spawn_ok, "recovery-arms", FK, "respawn", "%s:%d" % (file, proc[0]["line"] if proc else 0),
                "each iteration of the outer loop spawns a new child process",
                "the outer loop does not spawn a fresh `process` per iteration")
     plid = proc[0]["pat"]["lid"] if proc else None
     for hname in ("stdin", "stdout"):
-        hl = [s for k, s in ostm if k == "let" and s["pat"].get("name") == hname]
+        # the binding that takes the child's stdin/stdout field, whatever it is called
+        hl = [s for k, s in ostm if k == "let" and s.get("init") and any(n.get("k") == "Field" and n["name"] == hname for n in hir_walk(s["init"]))]
+        bname = hl[0]["pat"].get("name") if len(hl) == 1 else hname
         ok = False
         if len(hl) == 1:
             fld = [n for n in hir_walk(hl[0]["init"]) if n.get("k") == "Field" and n["name"] == hname]
@@ -241,7 +259,7 @@ def parent(chk, F):
         uses = []
         for mc in H.method_calls(inner["body"]):
             if mc["name"] in ("read_async", "write_async", "read_sync", "write_sync") and mc["args"]:
-                uses += [n for n in hir_walk(mc["args"][0]) if n.get("k") == "Path" and n["r"].get("res") == "local" and n["r"]["name"] == hname]
+                uses += [n for n in hir_walk(mc["args"][0]) if n.get("k") == "Path" and n["r"].get("res") == "local" and n["r"]["name"] == bname]
         chk.decide(bool(uses) and all(u["r"]["lid"] == hlid for u in uses), "recovery-arms", FK, "uses-fresh-" + hname, "",
                    "requests use the %s of the current child (%d uses)" % (hname, len(uses)),
                    "a %s handle other than the current child's is used in the request loop" % hname)
